@@ -46,3 +46,9 @@ pub mod array;
 pub use array::Array;
 
 pub mod utils;
+
+// Verification hook (inert unless built by `cargo kani`, which sets `cfg(kani)`):
+// proof harnesses for private items live outside the repository.
+#[cfg(kani)]
+#[path = "/verif/kani/incrate/mod.rs"]
+mod verif_kani;
